@@ -171,10 +171,41 @@ def _standin(rep, tier, seed):
                 samples)
 
 
+def _purity(rep, seed=0):
+    from persim import heat
+    from vlib.deductive import purity_probe
+    rng = random.Random(seed + 5)
+    calls = []
+    for _ in range(6):
+        F = np.array(_rand_dgm(rng, rng.randint(1, 4)), dtype=float)
+        G = np.array(_rand_dgm(rng, rng.randint(1, 4)), dtype=float)
+        s = rng.choice([0.4, 1.0, 0.125, 2.0])
+        calls.append(("heat(F, G, sigma=%s) on float64 arrays" % s, (lambda F=F, G=G, s=s: heat(F, G, sigma=s)), [F, G]))
+    with warnings.catch_warnings():
+        warnings.simplefilter("ignore")
+        return purity_probe(rep, "heat", calls, "heat:argument-modified")
+
+
+def _replay_frame(a):
+    class C:
+        def __init__(self):
+            self.v = []
+
+        def violation(self, what, sig, payload, **k):
+            self.v.append((what, sig, payload))
+    c = C()
+    _purity(c)
+    if c.v:
+        what, sig, payload = c.v[0]
+        return True, payload, sig, what
+    return False, None, None, None
+
+
 def run(rep, tier, seed):
     from contracts.c14_heat import all_contracts
     cs, table = all_contracts(tier)
-    run_contracts(rep, cs, table, tier=tier)
+    run_contracts(rep, cs, table, tier=tier, replayers=[(r"frame", _replay_frame)])
+    _purity(rep, seed)
     rep.assume("L: the multi-scale kernel is positive definite (Reininghaus et al. 2015), hence the radicand is >= 0 in real arithmetic (precondition of heat's contract)",
                "L: pseudo-metric laws and Wasserstein stability follow from the kernel form (sampled only)",
                "NaN-freedom and exact zero on reorderings are properties of float summation order: bounded stand-in only")
